@@ -324,5 +324,5 @@ func mustJSON(v any) string {
 func TestGRPCJSON(t *testing.T) {
 	pand.Init()
 	r := vf.Start(t, "C20")
-	vf.Check(r, genCase, check)
+	vf.Check(r, genCase, vf.LoadTolerant(25*time.Millisecond, check))
 }
